@@ -3,8 +3,8 @@
    result line per command.  Pure glue: conversions int <-> nat/N, reader, printer. *)
 open Model
 
-let rec nat_of_int i = if i <= 0 then O else S (nat_of_int (i - 1))
-let rec int_of_nat = function O -> 0 | S n -> 1 + int_of_nat n
+let nat_of_int i = let rec go i acc = if i <= 0 then acc else go (i - 1) (S acc) in go i O
+let int_of_nat n = let rec go n acc = match n with O -> acc | S m -> go m (acc + 1) in go n 0
 let rec pos_of_int i =
   if i = 1 then XH else if i land 1 = 0 then XO (pos_of_int (i lsr 1)) else XI (pos_of_int (i lsr 1))
 let n_of_int i = if i = 0 then N0 else Npos (pos_of_int i)
@@ -122,6 +122,21 @@ let pr_events (evs : event list) =
       | EMiss (id, k) -> f "M" id k ""
       | ESet (id, k, is_err) -> f "S" id k (if is_err then "!" else "")) evs)
 
+(* ---- registry scripts (C04 C10 C12) ---- *)
+let reg_state : reg Stdlib.ref = Stdlib.ref reg0
+let reg_boot : reg option Stdlib.ref = Stdlib.ref None
+let boot_reg () = match !reg_boot with Some r -> r | None -> let r = r_boot () in reg_boot := Some r; r
+let big_fuel = nat_of_int 1000000
+let apply_opt tag (r : reg option) =
+  match r with Some r' -> reg_state := r'; print_endline (tag ^ " OK") | None -> print_endline (tag ^ " ERR")
+let apply_lres tag (r : lres) =
+  match r with
+  | LOk r' -> reg_state := r'; print_endline (tag ^ " OK")
+  | LParseError -> print_endline (tag ^ " PERR")
+  | LOther -> print_endline (tag ^ " OTHER")
+  | LOOF -> print_endline (tag ^ " OOF")
+let find_rule c name = rget !reg_state (n_of_int c) name
+
 let oracle = function 0 -> sh_id | 1 -> sh_rev | _ -> failwith "oracle"
 
 (* ---- cache scripts (C16) ---- *)
@@ -185,6 +200,43 @@ let () =
             let o = next_int () in let r = next_int () in let s = read_str () in
             print_endline (pr_res (parse_all (oracle o) !g !fuel (n_of_int r) s))
           | "CACHE" -> print_endline (run_cache ())
+          | "RRESET" -> reg_state := boot_reg ()
+          | "RCREATE" ->  (* RCREATE route cls text : route 0 = spec reader, 1 = library model (engine+visitor) *)
+            let route = next_int () in let c = next_int () in let t = read_str () in
+            if route = 0 then apply_opt "RCREATE" (create (n_of_int c) t !reg_state)
+            else apply_lres "RCREATE" (lib_create big_fuel (n_of_int c) t !reg_state)
+          | "RLOAD" ->
+            let route = next_int () in let c = next_int () in let strict = next_int () <> 0 in let t = read_str () in
+            if route = 0 then apply_opt "RLOAD" (load_grammar (n_of_int c) t strict !reg_state)
+            else apply_lres "RLOAD" (lib_load_grammar big_fuel (n_of_int c) t strict !reg_state)
+          | "RIMPORT" ->  (* RIMPORT cls localname srccls srcname *)
+            let c = next_int () in let ln = read_str () in let sc = next_int () in let sn = read_str () in
+            let (r1, k) = rnew !reg_state (n_of_int sc) sn in
+            apply_opt "RIMPORT" (import_rule (n_of_int c) ln k r1)
+          | "RFLAG" ->
+            let c = next_int () in let nm = read_str () in let v = next_int () <> 0 in
+            let (r1, k) = rnew !reg_state (n_of_int c) nm in
+            reg_state := r1;     (* the rule object exists even when the setter raises *)
+            apply_opt "RFLAG" (set_flag k v r1)
+          | "REXCL" ->
+            let c = next_int () in let nm = read_str () in let c2 = next_int () in let nm2 = read_str () in
+            let (r1, k) = rnew !reg_state (n_of_int c) nm in
+            let (r2, k2) = rnew r1 (n_of_int c2) nm2 in
+            reg_state := set_excl k k2 r2; print_endline "REXCL OK"
+          | "RNEW" -> let c = next_int () in let nm = read_str () in
+            let (r1, k) = rnew !reg_state (n_of_int c) nm in reg_state := r1; Printf.printf "RNEW %d\n" (int_of_nat k)
+          | "RDUMP" -> dump_reg (Some !reg_state)
+          | "RPARSE" ->  (* RPARSE kind cls name i s *)
+            let kind = next_int () in let c = next_int () in let nm = read_str () in let i = next_int () in let s = read_str () in
+            (match find_rule c nm with
+             | None -> print_endline "NORULE"
+             | Some k ->
+               let gr = grammar_of !reg_state in
+               let r = n_of_int (int_of_nat k) in
+               print_endline (pr_res (match kind with
+                   | 0 -> lparse sh_id gr !fuel (ERef r) s (nat_of_int i)
+                   | 1 -> parse sh_id gr !fuel r s (nat_of_int i)
+                   | _ -> parse_all sh_id gr !fuel r s)))
           | "HNEW" ->   (* HNEW dflt : all caches fresh with class default limit dflt *)
             let d = read_optnat () in
             hist_epoch := 0; hist_state := (fun _ -> cnew d None O)
